@@ -117,10 +117,13 @@ Proof.
 Qed.
 
 Lemma annot_counts : forall base l,
-  count_elems (map (annot base) l) = count_elem_nodes l /\ has_text (map (annot base) l) = has_text_node l.
+  count_elems (map (annot base) l) = count_elem_nodes l /\
+  (has_text_node l = false -> has_text (map (annot base) l) = false).
 Proof.
   intros base. induction l as [|n l [I1 I2]]; [split; reflexivity|].
-  destruct n; cbn [map annot count_elems count_elem_nodes has_text has_text_node]; split; auto. rewrite I2. reflexivity.
+  destruct n; cbn [map annot count_elems count_elem_nodes has_text has_text_node]; split; auto.
+  intros H. apply orb_false_iff in H. destruct H as [H1 H2]. rewrite (I2 H2).
+  apply negb_false_iff in H1. destruct s; [discriminate|]. cbn [doc_text_ok] in H1. rewrite H1. reflexivity.
 Qed.
 
 (** documents whose document element is not itself an xi:include *)
@@ -171,9 +174,10 @@ Proof.
       destruct (is_fallback ns nm); [inversion W; eauto|]. destruct (walk_list _ k) as [ks e']. inversion W. eauto. }
     destruct RS as [ks RS]. subst r.
     destruct (annot_counts uri (pre ++ [Elem ns nm a ks] ++ post)) as [C1 C2]. rewrite A2 in C1, C2.
-    rewrite C2, C1. rewrite !has_text_app, !count_elem_app. cbn [has_text_node count_elem_nodes].
     rewrite ET in HT. change (pre ++ Elem ns nm a k :: post) with (pre ++ [Elem ns nm a k] ++ post) in HT.
     rewrite !has_text_app in HT. cbn [has_text_node] in HT. apply orb_false_iff in HT. destruct HT as [HT1 HT2].
-    cbn [orb] in HT2. rewrite HT1, HT2, CP, CPost. cbn.
+    cbn [orb] in HT2.
+    rewrite C2 by (rewrite !has_text_app; cbn [has_text_node]; rewrite HT1, HT2; reflexivity).
+    rewrite C1. rewrite !count_elem_app. cbn [count_elem_nodes]. rewrite CP, CPost. cbn.
     exists (pre ++ [Elem ns nm a ks] ++ post), e. split; [reflexivity|]. split; [exact A1|exact A2].
 Qed.
